@@ -42,10 +42,25 @@ theorem squote_not_mem_dotted (r : Str → Bool) (ns : List Name) (h : ∀ n ∈
       simp [dottedNames, h1] at h2 ⊢
       exact h2
 
-theorem lex_rawLiteral (inner rest : Str) (hq : '\'' ∉ inner) (h : rest.head? ≠ some '\'') :
-    lexFrom .mssql .none ('\'' :: (inner ++ '\'' :: rest)) = .str inner :: lexFrom .mssql .none rest := by
+/-- what `_quote_in_literal` + the surrounding quotes write lexes back to the embedded text, for EVERY text -/
+theorem lex_quotedLiteral (inner rest : Str) (h : rest.head? ≠ some '\'') :
+    lexFrom .mssql .none ('\'' :: (quoteInLiteral inner ++ '\'' :: rest)) = .str inner :: lexFrom .mssql .none rest := by
   have := lex_sqlLiteral .mssql inner rest (Or.inl rfl) h
-  simpa [sqlLiteral, escapeClose_id '\'' inner hq] using this
+  simpa [sqlLiteral, quoteInLiteral] using this
+
+theorem escapeClose_append (q : Char) (a b : Str) : escapeClose q (a ++ b) = escapeClose q a ++ escapeClose q b := by
+  induction a with
+  | nil => simp [escapeClose]
+  | cons c t ih =>
+    by_cases h : c = q
+    · subst h; simp [escapeClose, ih]
+    · simp [escapeClose, h, ih]
+
+theorem quoteInLiteral_dot (a b : Str) :
+    quoteInLiteral a ++ '.' :: quoteInLiteral b = quoteInLiteral (a ++ '.' :: b) := by
+  have : a ++ '.' :: b = a ++ (['.'] ++ b) := by simp
+  rw [this]
+  simp [quoteInLiteral, escapeClose_append, escapeClose]
 
 /-- a chain written inside a literal, lexed on its own, matches its `ref` item -/
 theorem match0_chain (r : Str → Bool) (ns : List Name) (sch : Option Str) (names : List Str) (hne : ns ≠ [])
